@@ -320,7 +320,7 @@ func (g *gen) maven() string {
 // qualifier / separator / zero component (these are where padding rules bite)
 var tieSuffixes = map[string][]string{
 	"maven":     {".a", "-rc", ".sp", "-sp", ".0.rc", "-1", ".1", ".foo", "-foo", ".#", "-0", ".0", "-ga", ".ga.1", "-alpha", ".alpha", "a1", "-SNAPSHOT", ".0-rc", ".rc", "-a", ".0.1", "-0.1", ".x", "-x", ".0.sp", "-+", ".+"},
-	"alpine":    {".0", ".00", "_cvs", "_rc", "-r0", "-r1", "a", "_p", "_p0", ".01", "_alpha1", ".000", ".1", "_cvs0", "_svn"},
+	"alpine":    {"-r1_p2", "x_rc1", "~abc_p1", "_p1_rc2", "_pre", "_prex", "_p", ".", "..1", "~", "~g", "-r", "-rx", "a_b", "_alpha1_beta2-r3", ".0", ".00", "_cvs", "_rc", "-r0", "-r1", "a", "_p", "_p0", ".01", "_alpha1", ".000", ".1", "_cvs0", "_svn"},
 	"packagist": {".99999999999999999999", ".5", "-dev", "-p1", "#", ".0", "RC1", "-beta", ".9223372036854775808", ".#", "-pl", ".1", "-a", "-#1"},
 	"pypi":      {".0", ".dev0", "a0", ".post0", "+local", "-1", "rc1", ".0.0", ".dev", "+1", "+a", ".post1.dev0", "b1"},
 	"debian":    {"~", "-0", "-1", "+b1", ".0", "a", "~~", "-0~", ".", "+", "-"},
